@@ -90,7 +90,12 @@ def call(
     for exponent, coefficient in zip(poly.exponents, poly.coefficients):
         term = ones
         for power, name in zip(exponent, poly.names):
-            term = term * parameters[name] ** power
+            value = parameters[name]
+            if isinstance(value, (int, float, complex)):
+                # a numpy.uint32 power would cast plain Python numbers to
+                # uint32 first (overflow for negative or large values)
+                power = int(power)
+            term = term * value**power
         if isinstance(term, numpoly.ndpoly):
             tmp = numpoly.outer(coefficient, term)
         else:
